@@ -40,6 +40,9 @@ struct UnitToml {
     /// generated-source files: path relative to scratch build OUT_DIR (prost)
     #[serde(default)]
     generated_root: Option<String>,
+    /// call-site census: every call of a guarded function must sit in a function that is under contract in this unit
+    #[serde(default)]
+    census: Vec<CensusSpec>,
     /// R20: `*x = v` (x a plain identifier) becomes `x.vx_store(v)`: a DerefMut store through a lock guard whose stand-in
     /// type implements `vx_store`.  If `x` is an ordinary `&mut T` the rewritten text does not compile => undecided.
     #[serde(default)]
@@ -51,6 +54,31 @@ struct UnitToml {
     /// (whose specification states the std semantics of the chain; trusted)
     #[serde(default)]
     chainmap: BTreeMap<String, String>,
+}
+
+/// A function whose contract has a PRECONDITION only its verified callers discharge (a protocol-step guard) generates one proof
+/// obligation per call site.  Call sites inside functions under contract are discharged by Verus; this census finds every
+/// other call site in the crate (syntactically, non-test code): such a call site's obligation has nobody to discharge it.
+#[derive(Deserialize, Debug, Clone)]
+struct CensusSpec {
+    /// obligation name
+    name: String,
+    /// method / function name (last path segment)
+    callee: String,
+    /// directory (relative to the repo) scanned recursively
+    root: String,
+    /// enclosing functions (`Type::fn` or `fn`) whose call sites are verified in this unit
+    allowed_in: Vec<String>,
+    props: Vec<String>,
+}
+#[derive(Serialize, Debug, Clone, Default)]
+struct CensusOut {
+    name: String,
+    callee: String,
+    props: Vec<String>,
+    ok: bool,
+    sites: Vec<String>,
+    offenders: Vec<String>,
 }
 
 #[derive(Deserialize, Debug, Clone)]
@@ -111,6 +139,10 @@ struct ItemSpec {
     /// extract this item only when the feature is active
     #[serde(default)]
     only_feature: Option<String>,
+    /// for `impl Trait for Type` items: keep only impls whose trait path (whitespace-free token text) contains this text
+    /// (selects one of several `impl From<X> for T`)
+    #[serde(default)]
+    trait_contains: Option<String>,
     /// drop generic params by name from impl/fn (with their bounds)
     #[serde(default)]
     drop_generics: Vec<String>,
@@ -166,6 +198,7 @@ struct MapOut {
     shape_checks: Vec<String>,
     shape_failures: Vec<String>,
     vacuity_target: Option<String>,
+    census: Vec<CensusOut>,
 }
 
 fn die(msg: impl AsRef<str>) -> ! {
@@ -274,12 +307,45 @@ struct Rewriter<'a> {
     keep_derives: BTreeSet<String>,
     deref_store: bool,
     expand_map_or_else: bool,
-    chainmap: Vec<(Vec<String>, String)>,
+    chainmap: Vec<(syn::Expr, syn::Expr)>,
 }
 
-/// "a().b()" -> ["a", "b"]
-fn parse_chain(s: &str) -> Vec<String> {
-    s.split('.').map(|p| p.trim().trim_end_matches("()").to_string()).filter(|p| !p.is_empty()).collect()
+/// chainmap key/value: an expression over metavariables; a text that starts with a method name gets the receiver `__`
+fn parse_chain(t: &str) -> syn::Expr {
+    let t = t.trim();
+    let full = if t.contains("__") { t.to_string() } else { format!("__.{}", t) };
+    syn::parse_str::<syn::Expr>(&full).unwrap_or_else(|e| die(format!("chainmap `{}`: {}", t, e)))
+}
+fn metavar(e: &syn::Expr) -> Option<String> {
+    if let syn::Expr::Path(p) = e { if let Some(id) = p.path.get_ident() { let n = id.to_string(); if n.starts_with("__") { return Some(n); } } }
+    None
+}
+fn match_pat(pat: &syn::Expr, e: &syn::Expr, binds: &mut BTreeMap<String, syn::Expr>) -> bool {
+    if let Some(n) = metavar(pat) {
+        if let Some(prev) = binds.get(&n) { return norm_tokens(&prev.to_token_stream()) == norm_tokens(&e.to_token_stream()); }
+        binds.insert(n, e.clone());
+        return true;
+    }
+    match (pat, e) {
+        (syn::Expr::MethodCall(p), syn::Expr::MethodCall(m)) => {
+            p.method == m.method && p.turbofish.is_none() && m.turbofish.is_none() && p.args.len() == m.args.len()
+                && match_pat(&p.receiver, &m.receiver, binds)
+                && p.args.iter().zip(m.args.iter()).all(|(a, b)| match_pat(a, b, binds))
+        }
+        (syn::Expr::Paren(p), _) => match_pat(&p.expr, e, binds),
+        (_, syn::Expr::Paren(m)) => match_pat(pat, &m.expr, binds),
+        (syn::Expr::Reference(p), syn::Expr::Reference(m)) => p.mutability.is_some() == m.mutability.is_some() && match_pat(&p.expr, &m.expr, binds),
+        _ => false,
+    }
+}
+struct Subst<'a> { binds: &'a BTreeMap<String, syn::Expr> }
+impl<'a> VisitMut for Subst<'a> {
+    fn visit_expr_mut(&mut self, e: &mut syn::Expr) {
+        if let Some(n) = metavar(e) {
+            if let Some(b) = self.binds.get(&n) { *e = b.clone(); return; }
+        }
+        visit_mut::visit_expr_mut(self, e);
+    }
 }
 
 fn is_tracing_macro(p: &syn::Path) -> bool {
@@ -745,23 +811,28 @@ impl<'a> VisitMut for Rewriter<'a> {
                 }
             }
         }
-        // R22: chainmap (argument-free method chains only)
+        // R22: chainmap: pattern expressions with metavariables `__`, `__1`, .. (any expression) over closure-free method chains
         if !self.chainmap.is_empty() {
-            for (chain, target) in self.chainmap.clone() {
-                let mut cur: &syn::Expr = e;
-                let mut ok = true;
-                for name in chain.iter().rev() {
-                    match cur {
-                        syn::Expr::MethodCall(m) if m.method == name.as_str() && m.args.is_empty() && m.turbofish.is_none() => cur = &*m.receiver,
-                        _ => { ok = false; break; }
-                    }
-                }
-                if ok {
-                    let recv = cur.clone();
-                    let t = syn::Ident::new(&target, Span::call_site());
-                    *e = syn::parse_quote!(#recv.#t());
+            for (pat, templ) in self.chainmap.clone() {
+                let mut binds: BTreeMap<String, syn::Expr> = BTreeMap::new();
+                if match_pat(&pat, e, &mut binds) {
+                    let mut out = templ.clone();
+                    Subst { binds: &binds }.visit_expr_mut(&mut out);
+                    *e = out;
                     self.rules.insert("R22".into());
                     break;
+                }
+            }
+        }
+        // R23: `vec![a, b, ..]` (list form) is expanded to its meaning: a fresh vector and one push per element
+        if let syn::Expr::Macro(m) = e {
+            if m.mac.path.is_ident("vec") {
+                let parser = syn::punctuated::Punctuated::<syn::Expr, syn::Token![,]>::parse_terminated;
+                if let Ok(elems) = syn::parse::Parser::parse2(parser, m.mac.tokens.clone()) {
+                    let mut elems: Vec<syn::Expr> = elems.into_iter().collect();
+                    for x in elems.iter_mut() { self.visit_expr_mut(x); }
+                    *e = syn::parse_quote!({ let mut vx_vec = Vec::new(); #( vx_vec.push(#elems); )* vx_vec });
+                    self.rules.insert("R23".into());
                 }
             }
         }
@@ -843,7 +914,22 @@ struct Annotator<'a> {
     used_closures: BTreeSet<usize>,
     used_loops: BTreeSet<usize>,
     used_calls: BTreeSet<usize>,
+    used_points: BTreeSet<usize>,
     rules: BTreeSet<String>,
+}
+/// names of the functions / methods a statement calls outside nested blocks and closures
+struct DirectCalls { names: Vec<String> }
+impl<'ast> syn::visit::Visit<'ast> for DirectCalls {
+    fn visit_block(&mut self, _b: &'ast syn::Block) {}
+    fn visit_expr_closure(&mut self, _c: &'ast syn::ExprClosure) {}
+    fn visit_expr_method_call(&mut self, m: &'ast syn::ExprMethodCall) {
+        self.names.push(m.method.to_string());
+        syn::visit::visit_expr_method_call(self, m);
+    }
+    fn visit_expr_call(&mut self, c: &'ast syn::ExprCall) {
+        if let syn::Expr::Path(p) = &*c.func { if let Some(l) = p.path.segments.last() { self.names.push(l.ident.to_string()); } }
+        syn::visit::visit_expr_call(self, c);
+    }
 }
 
 fn callee_name(e: &syn::Expr) -> Option<String> {
@@ -927,6 +1013,39 @@ impl<'a> VisitMut for Annotator<'a> {
         visit_mut::visit_stmt_mut(self, s);
     }
 
+    fn visit_block_mut(&mut self, b: &mut syn::Block) {
+        let pts: Vec<ProofPoint> = self.contract.map(|c| c.proof_points.clone()).unwrap_or_default();
+        if pts.is_empty() { visit_mut::visit_block_mut(self, b); return; }
+        let mut out: Vec<syn::Stmt> = vec![];
+        for mut st in std::mem::take(&mut b.stmts) {
+            let direct_loop = matches!(&st, syn::Stmt::Expr(syn::Expr::While(_) | syn::Expr::Loop(_) | syn::Expr::ForLoop(_), _));
+            if direct_loop {
+                let k = self.loop_counter;
+                for (i, p) in pts.iter().enumerate() {
+                    if matches!(&p.at, ProofAt::BeforeLoop(n) if *n == k) {
+                        let mid = syn::Ident::new(&format!("vx_proof_pt_{}_{}", self.fn_idx, i), Span::call_site());
+                        out.push(syn::parse_quote!(#mid!();));
+                        self.used_points.insert(i);
+                    }
+                }
+            }
+            // calls made directly by this statement (not inside nested blocks / closures, which are handled at their own level)
+            let mut dc = DirectCalls { names: vec![] };
+            syn::visit::Visit::visit_stmt(&mut dc, &st);
+            self.visit_stmt_mut(&mut st);
+            out.push(st);
+            for (i, p) in pts.iter().enumerate() {
+                if let ProofAt::AfterCall(n) = &p.at {
+                    if dc.names.iter().any(|x| x == n) {
+                        let mid = syn::Ident::new(&format!("vx_proof_pt_{}_{}", self.fn_idx, i), Span::call_site());
+                        out.push(syn::parse_quote!(#mid!();));
+                        self.used_points.insert(i);
+                    }
+                }
+            }
+        }
+        b.stmts = out;
+    }
     fn visit_expr_mut(&mut self, e: &mut syn::Expr) {
         let is_loop = matches!(e, syn::Expr::While(_) | syn::Expr::Loop(_) | syn::Expr::ForLoop(_));
         if is_loop {
@@ -1067,6 +1186,7 @@ fn process_fn_common(
         used_closures: BTreeSet::new(),
         used_loops: BTreeSet::new(),
         used_calls: BTreeSet::new(),
+        used_points: BTreeSet::new(),
         rules: BTreeSet::new(),
     };
     if let Some(b) = block {
@@ -1281,7 +1401,7 @@ fn main() {
             keep_derives: spec.keep_derives.iter().cloned().collect(),
             deref_store: unit_toml.deref_store,
             expand_map_or_else: unit_toml.expand_map_or_else,
-            chainmap: unit_toml.chainmap.iter().map(|(k, v)| (parse_chain(k), v.trim_end_matches("()").to_string())).collect(),
+            chainmap: unit_toml.chainmap.iter().map(|(k, v)| (parse_chain(k), parse_chain(v))).collect(),
         };
         let extra_attrs: Vec<syn::Attribute> = spec
             .extra_attrs
@@ -1441,7 +1561,12 @@ fn main() {
                             (Some((_, p, _)), Some(tn)) => p.segments.last().map(|s| s.ident == tn).unwrap_or(false),
                             _ => false,
                         };
-                        if ty_ok && tr_ok { matched.push(im.clone()); }
+                        let sel_ok = match (&spec.trait_contains, &im.trait_) {
+                            (Some(t), Some((_, p, _))) => p.to_token_stream().to_string().replace(' ', "").contains(&t.replace(' ', "")),
+                            (Some(_), None) => false,
+                            (None, _) => true,
+                        };
+                        if ty_ok && tr_ok && sel_ok { matched.push(im.clone()); }
                     }
                 }
                 if matched.is_empty() { die(format!("lost anchor: `{}` in {}", spec.path, spec.file)); }
@@ -1773,6 +1898,18 @@ fn main() {
                 push_line(&mut final_out, &mut line_no, &format!("{}}}", indent));
                 continue;
             }
+            if let Some(rest) = parse_placeholder(trimmed, "vx_proof_pt_", "!();") {
+                let mut it = rest.split('_');
+                let n: usize = it.next().unwrap().parse().unwrap();
+                let i: usize = it.next().unwrap().parse().unwrap();
+                let gi = idx_of_fnidx[&n];
+                let key = gen.fns[gi].key.clone();
+                let txt = contracts.fns[&key].proof_points[i].text.clone();
+                push_line(&mut final_out, &mut line_no, &format!("{}proof! {{", indent));
+                for l in txt.lines() { push_line(&mut final_out, &mut line_no, &format!("{}    {}", indent, l)); }
+                push_line(&mut final_out, &mut line_no, &format!("{}}}", indent));
+                continue;
+            }
             if let Some(rest) = parse_placeholder(trimmed, "vx_proof_loop_", "!();") {
                 let mut it = rest.split('_');
                 let n: usize = it.next().unwrap().parse().unwrap();
@@ -1840,9 +1977,126 @@ fn main() {
         shape_checks: gen.shape_checks,
         shape_failures,
         vacuity_target: vacuity,
+        census: unit_toml.census.iter().map(|c| run_census(&repo, c, &cfg)).collect(),
     };
     std::fs::write(&map, serde_json::to_string_pretty(&m).unwrap()).unwrap_or_else(|e| die(format!("write map: {}", e)));
     let _ = Path::new(".");
+}
+
+// ---------------------------------------------------------------- call-site census
+struct CensusVisitor<'a> {
+    callee: &'a str,
+    cfg: &'a CfgEnv,
+    ty: Vec<String>,
+    func: Vec<String>,
+    hits: Vec<(String, usize)>,
+}
+impl<'a> CensusVisitor<'a> {
+    fn here(&self) -> String {
+        match (self.ty.last(), self.func.last()) {
+            (Some(t), Some(f)) if !t.is_empty() => format!("{}::{}", t, f),
+            (_, Some(f)) => f.clone(),
+            _ => "<item>".into(),
+        }
+    }
+}
+fn is_cfg_test(attrs: &[syn::Attribute]) -> bool {
+    attrs.iter().any(|a| a.path().is_ident("cfg") && a.meta.to_token_stream().to_string().replace(' ', "").contains("cfg(test)"))
+}
+impl<'a, 'ast> syn::visit::Visit<'ast> for CensusVisitor<'a> {
+    fn visit_item_mod(&mut self, m: &'ast syn::ItemMod) {
+        if is_cfg_test(&m.attrs) { return; }
+        syn::visit::visit_item_mod(self, m);
+    }
+    fn visit_item_impl(&mut self, im: &'ast syn::ItemImpl) {
+        if is_cfg_test(&im.attrs) || !self.cfg.keep(&im.attrs) { return; }
+        self.ty.push(type_last_ident(&im.self_ty).unwrap_or_default());
+        syn::visit::visit_item_impl(self, im);
+        self.ty.pop();
+    }
+    fn visit_item_trait(&mut self, t: &'ast syn::ItemTrait) {
+        self.ty.push(t.ident.to_string());
+        syn::visit::visit_item_trait(self, t);
+        self.ty.pop();
+    }
+    fn visit_item_fn(&mut self, f: &'ast syn::ItemFn) {
+        if is_cfg_test(&f.attrs) || f.attrs.iter().any(|a| a.path().is_ident("test")) { return; }
+        self.ty.push(String::new());
+        self.func.push(f.sig.ident.to_string());
+        syn::visit::visit_item_fn(self, f);
+        self.func.pop();
+        self.ty.pop();
+    }
+    fn visit_impl_item_fn(&mut self, f: &'ast syn::ImplItemFn) {
+        if is_cfg_test(&f.attrs) || !self.cfg.keep(&f.attrs) { return; }
+        self.func.push(f.sig.ident.to_string());
+        syn::visit::visit_impl_item_fn(self, f);
+        self.func.pop();
+    }
+    fn visit_trait_item_fn(&mut self, f: &'ast syn::TraitItemFn) {
+        self.func.push(f.sig.ident.to_string());
+        syn::visit::visit_trait_item_fn(self, f);
+        self.func.pop();
+    }
+    fn visit_expr_method_call(&mut self, m: &'ast syn::ExprMethodCall) {
+        if m.method == self.callee { self.hits.push((self.here(), m.method.span().start().line)); }
+        syn::visit::visit_expr_method_call(self, m);
+    }
+    fn visit_expr_path(&mut self, p: &'ast syn::ExprPath) {
+        // a path naming the function (called directly, or passed as a function value)
+        if p.path.segments.last().map(|s| s.ident == self.callee).unwrap_or(false) && p.path.segments.len() > 1 {
+            self.hits.push((self.here(), p.path.segments.last().unwrap().ident.span().start().line));
+        }
+        syn::visit::visit_expr_path(self, p);
+    }
+    fn visit_macro(&mut self, m: &'ast syn::Macro) {
+        // calls hidden in macro arguments: token-level search
+        let mut prev_dot_or_colon = false;
+        fn walk(ts: TokenStream, callee: &str, hits: &mut Vec<usize>, prev: &mut bool) {
+            for tt in ts {
+                match tt {
+                    TokenTree::Group(g) => { walk(g.stream(), callee, hits, prev); *prev = false; }
+                    TokenTree::Ident(i) => { if i == callee && *prev { hits.push(i.span().start().line); } *prev = false; }
+                    TokenTree::Punct(p) => { *prev = p.as_char() == '.' || p.as_char() == ':'; }
+                    _ => { *prev = false; }
+                }
+            }
+        }
+        let mut hs = vec![];
+        walk(m.tokens.clone(), self.callee, &mut hs, &mut prev_dot_or_colon);
+        for l in hs { self.hits.push((self.here(), l)); }
+    }
+}
+fn run_census(repo: &Path, c: &CensusSpec, cfg: &CfgEnv) -> CensusOut {
+    let mut out = CensusOut { name: c.name.clone(), callee: c.callee.clone(), props: c.props.clone(), ok: true, ..Default::default() };
+    let mut stack = vec![repo.join(&c.root)];
+    let mut files = vec![];
+    while let Some(d) = stack.pop() {
+        let rd = std::fs::read_dir(&d).unwrap_or_else(|e| die(format!("census: cannot read {}: {}", d.display(), e)));
+        for ent in rd.flatten() {
+            let p = ent.path();
+            let name = p.file_name().unwrap().to_string_lossy().to_string();
+            if p.is_dir() { if name != "tests" { stack.push(p); } continue; }
+            if !name.ends_with(".rs") || name.ends_with("tests.rs") || name.ends_with("_test.rs") { continue; }
+            files.push(p);
+        }
+    }
+    files.sort();
+    for f in files {
+        let src = std::fs::read_to_string(&f).unwrap_or_else(|e| die(format!("census: {}: {}", f.display(), e)));
+        let parsed = syn::parse_file(&src).unwrap_or_else(|e| die(format!("census: cannot parse {}: {}", f.display(), e)));
+        let mut v = CensusVisitor { callee: &c.callee, cfg, ty: vec![], func: vec![], hits: vec![] };
+        syn::visit::Visit::visit_file(&mut v, &parsed);
+        let rel = f.strip_prefix(repo).unwrap_or(&f).display().to_string();
+        for (encl, line) in v.hits {
+            let site = format!("{}:{} in {}", rel, line, encl);
+            if c.allowed_in.contains(&encl) { out.sites.push(site); } else { out.ok = false; out.offenders.push(site); }
+        }
+    }
+    if out.sites.is_empty() && out.ok {
+        die(format!("census `{}`: no call site of `{}` found at all under {} (lost anchor)", c.name, c.callee, c.root));
+    }
+    out
 }
 
 fn parse_placeholder<'a>(line: &'a str, pre: &str, post: &str) -> Option<&'a str> {
